@@ -284,11 +284,15 @@ class TimeReparametrizedModel(McmcSaemCompatibleModel):
         if not dataset:
             return
         if self.source_dimension is None:
-            self.source_dimension = int(dataset.dimension**0.5)
-            warnings.warn(
-                "You did not provide `source_dimension` hyperparameter for multivariate model, "
-                f"setting it to ⌊√dimension⌋ = {self.source_dimension}."
+            # default number of sources, always within [0, dimension - 1] (no source for univariate models)
+            self.source_dimension = min(
+                int(dataset.dimension**0.5), dataset.dimension - 1
             )
+            if dataset.dimension > 1:
+                warnings.warn(
+                    "You did not provide `source_dimension` hyperparameter for multivariate model, "
+                    f"setting it to ⌊√dimension⌋ = {self.source_dimension}."
+                )
         elif not (
             isinstance(self.source_dimension, int)
             and 0 <= self.source_dimension < dataset.dimension
